@@ -1,8 +1,17 @@
 #!/bin/bash
-# Independent re-check of the compiled property files with coqchk, printing
-# the axioms they (and everything they load) rely on.  Run after a full pass
-# of the checks (they compile coq/Properties/*.vo).  Takes several minutes.
+# Independent re-check of the compiled property files with coqchk (one process
+# per property file, in parallel), printing the axioms each one (and everything
+# it loads) relies on.  Run after a full pass of the checks (they compile
+# coq/Properties/*.vo).  coqchk has no bytecode VM: files whose proofs are
+# large vm_compute sweeps (the bounded cover tables behind C09/C10) take very
+# long; each process is limited to ${COQCHK_TIMEOUT:-5400} s and a time-out
+# (rc=124) is reported as such, not as success.
 cd /verif/coq
-mods=$(ls Properties/*.vo 2>/dev/null | sed 's|Properties/\(.*\)\.vo|OmegaProps.\1|')
-timeout 7200 coqchk -silent -o -Q theories Omega -Q gen OmegaGen -Q GenProofs OmegaGP \
-  -Q Properties OmegaProps $mods 2>&1 | tail -40
+mkdir -p ../tmp/coqchk
+ls Properties/*.vo | sed 's|Properties/\(.*\)\.vo|\1|' | \
+  xargs -P ${COQCHK_JOBS:-8} -I{} bash -c \
+  'timeout ${COQCHK_TIMEOUT:-5400} coqchk -silent -o -Q theories Omega -Q gen OmegaGen -Q GenProofs OmegaGP -Q Properties OmegaProps OmegaProps.{} > ../tmp/coqchk/{}.txt 2>&1; echo "rc=$?" >> ../tmp/coqchk/{}.txt'
+for f in ../tmp/coqchk/*.txt; do
+  echo "== $(basename $f .txt): $(tail -1 $f)"
+  sed -n '/CONTEXT SUMMARY/,$p' $f | grep -v '^rc='
+done
